@@ -14,12 +14,17 @@ Ltac eval_closed c :=
   | true => change c with true
   | false => change c with false
   end.
+(* an atom whose operands still contain a conditional is left for later: its inner comparisons
+   are decided first, the conditional reduces, and the atom becomes closed or simple *)
+Ltac simple_operands a b :=
+  lazymatch a with context [if _ then _ else _] => fail | _ => idtac end;
+  lazymatch b with context [if _ then _ else _] => fail | _ => idtac end.
 Ltac decide_atoms :=
   prune;
   repeat match goal with
-         | |- context [?a =? ?b] => first [eval_closed (a =? b) | destruct (a =? b) eqn:?]; prune
-         | |- context [?a <? ?b] => destruct (a <? b) eqn:?; prune
-         | |- context [?a <=? ?b] => destruct (a <=? b) eqn:?; prune
-         | |- context [?a >=? ?b] => destruct (a >=? b) eqn:?; prune
-         | |- context [?a >? ?b] => destruct (a >? b) eqn:?; prune
+         | |- context [?a =? ?b] => simple_operands a b; first [eval_closed (a =? b) | destruct (a =? b) eqn:?]; prune
+         | |- context [?a <? ?b] => simple_operands a b; destruct (a <? b) eqn:?; prune
+         | |- context [?a <=? ?b] => simple_operands a b; destruct (a <=? b) eqn:?; prune
+         | |- context [?a >=? ?b] => simple_operands a b; destruct (a >=? b) eqn:?; prune
+         | |- context [?a >? ?b] => simple_operands a b; destruct (a >? b) eqn:?; prune
          end.
